@@ -1,9 +1,9 @@
 (* Lemmas about Model/Scoring.v.  Part 1: the scoring functions.  Part 2: evaluating the
    generic SQL generators gives the scoring functions. *)
-From Coq Require Import List Bool ZArith QArith Qminmax Qabs Lia Lqa Arith.
+From Coq Require Import List Bool ZArith QArith Qminmax Qabs Lia Lqa Arith Permutation.
 From Splinkv Require Import Base.TV Model.Scoring.
 Import ListNotations.
-Open Scope Q_scope.
+Local Open Scope Q_scope.
 
 (* ------------------------------------------------------------------------------------ *)
 (* CASE WHEN: first firing level *)
@@ -178,4 +178,603 @@ Lemma tf_of_gamma_fired pow tfs ls i l :
   nth_error ls i = Some l -> tf_of_gamma pow tfs ls (cvv_of ls i) = Some (tf_adj pow tfs ls l (cvv_of ls i)).
 Proof.
   intros Hi. unfold tf_of_gamma. apply (lookup_level_value (fun l c => tf_adj pow tfs ls l c)); auto.
+Qed.
+
+(* ------------------------------------------------------------------------------------ *)
+(* gamma: first listed level whose condition holds; numbering; bf lookup *)
+Lemma gamma_first_true ls outc :
+  match gamma ls outc with
+  | Some g =>
+      exists i l, nth_error ls i = Some l /\ fires outc l = true /\
+        (forall j l', (j < i)%nat -> nth_error ls j = Some l' -> fires outc l' = false) /\
+        g = (if is_null l then (-1)%Z else (Z.of_nat (n_nonnull ls) - 1 - Z.of_nat (nn_before i ls))%Z) /\
+        bf_of_gamma ls g = Some (bf l) /\
+        (forall pow tfs, tf_of_gamma pow tfs ls g = Some (tf_adj pow tfs ls l g))
+  | None => forall l, In l ls -> fires outc l = false
+  end.
+Proof.
+  unfold gamma. destruct (fired outc ls) as [i|] eqn:Hf; cbn.
+  - destruct (fired_some _ _ _ Hf) as (l & Hn & Hfi & Hb). exists i, l. repeat split; auto.
+    + apply cvv_of_spec; auto.
+    + apply bf_of_gamma_fired; auto.
+    + intros. apply tf_of_gamma_fired; auto.
+  - apply fired_none; auto.
+Qed.
+
+(* with an ELSE level present some level always fires *)
+Lemma gamma_total ls outc : existsb is_else ls = true -> gamma ls outc <> None.
+Proof.
+  intros H. apply existsb_exists in H. destruct H as (l & Hin & He).
+  pose proof (gamma_first_true ls outc) as G. destruct (gamma ls outc); [discriminate|].
+  specialize (G l Hin). unfold fires in G. rewrite He in G. discriminate.
+Qed.
+
+(* ------------------------------------------------------------------------------------ *)
+(* divisor CASE = max *)
+Lemma Qle_bool_false a b : Qle_bool a b = false -> b < a.
+Proof. intros H. apply Qnot_le_lt. intros C. apply Qle_bool_iff in C. congruence. Qed.
+
+Lemma divisor_A_max tfl tfr l' r' :
+  coalesce2 tfl tfr = Some l' -> coalesce2 tfr tfl = Some r' ->
+  exists d, divisor_A tfl tfr = Some d /\ d == Qmax l' r'.
+Proof.
+  intros Hl Hr. unfold divisor_A. rewrite Hl, Hr. cbn.
+  destruct (Qle_bool r' l') eqn:E; cbn.
+  - exists l'. split; auto. apply Qle_bool_iff in E. symmetry. apply Q.max_l; auto.
+  - exists r'. split; auto. apply Qle_bool_false in E. symmetry. apply Q.max_r. apply Qlt_le_weak; auto.
+Qed.
+
+Lemma divisor_B_max min_u tfl tfr l' r' :
+  coalesce2 tfl tfr = Some l' -> coalesce2 tfr tfl = Some r' ->
+  exists d, divisor_B min_u tfl tfr = Some d /\ d == Qmax (Qmax l' r') min_u.
+Proof.
+  intros Hl Hr. unfold divisor_B. rewrite Hl, Hr. cbn.
+  destruct (Qle_bool r' l') eqn:E1; cbn.
+  - apply Qle_bool_iff in E1. assert (M : Qmax l' r' == l') by (apply Q.max_l; auto).
+    destruct (Qle_bool l' min_u) eqn:E2; cbn.
+    + apply Qle_bool_iff in E2. destruct (Qle_bool r' min_u) eqn:E3; cbn.
+      * exists min_u. split; auto. rewrite M. symmetry. apply Q.max_r; auto.
+      * apply Qle_bool_false in E3. exfalso. apply (Qlt_irrefl min_u).
+        eapply Qlt_le_trans; [exact E3|]. eapply Qle_trans; eauto.
+    + apply Qle_bool_false in E2. exists l'. split; auto. rewrite M. symmetry. apply Q.max_l. apply Qlt_le_weak; auto.
+  - apply Qle_bool_false in E1. assert (M : Qmax l' r' == r') by (apply Q.max_r; apply Qlt_le_weak; auto).
+    destruct (Qle_bool r' min_u) eqn:E3; cbn.
+    + apply Qle_bool_iff in E3. exists min_u. split; auto. rewrite M. symmetry. apply Q.max_r; auto.
+    + apply Qle_bool_false in E3. exists r'. split; auto. rewrite M. symmetry. apply Q.max_l. apply Qlt_le_weak; auto.
+Qed.
+
+Lemma coalesce2_cases tfl tfr :
+  (tfl = None /\ tfr = None /\ coalesce2 tfl tfr = None /\ coalesce2 tfr tfl = None) \/
+  (exists l' r', coalesce2 tfl tfr = Some l' /\ coalesce2 tfr tfl = Some r' /\
+     match tfl, tfr with
+     | Some a, Some b => l' = a /\ r' = b
+     | Some a, None => l' = a /\ r' = a
+     | None, Some b => l' = b /\ r' = b
+     | None, None => False
+     end).
+Proof. destruct tfl as [a|], tfr as [b|]; cbn; [right; exists a, b|right; exists a, a|right; exists b, b|left]; auto. Qed.
+
+Lemma tf_divisor_max min_u tfl tfr l' r' :
+  coalesce2 tfl tfr = Some l' -> coalesce2 tfr tfl = Some r' ->
+  0 <= l' -> 0 <= r' -> 0 <= min_u ->
+  exists d, tf_divisor min_u tfl tfr = Some d /\ d == Qmax (Qmax l' r') min_u.
+Proof.
+  intros Hl Hr Pl Pr Pm. unfold tf_divisor. destruct (Qeq_bool min_u 0) eqn:E.
+  - apply Qeq_bool_iff in E. destruct (divisor_A_max _ _ _ _ Hl Hr) as (d & Hd & Hm).
+    exists d. split; auto. rewrite Hm, E. symmetry. apply Q.max_l.
+    eapply Qle_trans; [exact Pl|]. apply Q.le_max_l.
+  - apply divisor_B_max; auto.
+Qed.
+
+Lemma tf_divisor_some min_u tfl tfr x :
+  coalesce2 tfl tfr = Some x -> exists d, tf_divisor min_u tfl tfr = Some d.
+Proof.
+  intros H. destruct (coalesce2_cases tfl tfr) as [(_&_&C&_)|(l'&r'&Hl&Hr&_)]; [congruence|].
+  unfold tf_divisor. destruct (Qeq_bool min_u 0).
+  - destruct (divisor_A_max _ _ _ _ Hl Hr) as (d&Hd&_). eauto.
+  - destruct (divisor_B_max min_u _ _ _ _ Hl Hr) as (d&Hd&_). eauto.
+Qed.
+
+(* the documented factor (u_exact / max(tf_l, tf_r, minimum_u))^weight *)
+Lemma tf_adj_formula pow tfs ls l cvv k tfl tfr l' r' :
+  tf_active l cvv = true -> tf_col l = Some k -> tfs k = (tfl, tfr) ->
+  coalesce2 tfl tfr = Some l' -> coalesce2 tfr tfl = Some r' ->
+  0 <= l' -> 0 <= r' -> 0 <= tf_min_u l ->
+  exists d, d == Qmax (Qmax l' r') (tf_min_u l) /\
+            tf_adj pow tfs ls l cvv = pow (u_exact_or ls l / d) (tf_w l).
+Proof.
+  intros Ha Hk Ht Hl Hr Pl Pr Pm. unfold tf_active in Ha. rewrite Hk in Ha.
+  apply andb_prop in Ha. destruct Ha as [Ha He]. apply andb_prop in Ha. destruct Ha as [Ha Hw].
+  apply andb_prop in Ha. destruct Ha as [Hc _].
+  destruct (tf_divisor_max _ _ _ _ _ Hl Hr Pl Pr Pm) as (d & Hd & Hm). exists d. split; auto.
+  unfold tf_adj. rewrite Hk, Ht, Hl, Hd.
+  destruct (Z.eqb cvv (-1)); [discriminate|]. destruct (Qeq_bool (tf_w l) 0); [discriminate|].
+  destruct (is_else l); [discriminate|]. reflexivity.
+Qed.
+
+Lemma tf_adj_no_tf_values pow tfs ls l cvv k :
+  tf_col l = Some k -> tfs k = (None, None) -> tf_adj pow tfs ls l cvv = 1.
+Proof.
+  intros Hk Ht. unfold tf_adj. rewrite Hk, Ht. cbn.
+  destruct (Z.eqb cvv (-1)); auto. destruct (Qeq_bool (tf_w l) 0); auto. destruct (is_else l); auto.
+Qed.
+
+Lemma tf_adj_weight_zero pow tfs ls l cvv : tf_w l == 0 -> tf_adj pow tfs ls l cvv = 1.
+Proof.
+  intros H. apply Qeq_bool_iff in H. unfold tf_adj. rewrite H.
+  destruct (Z.eqb cvv (-1)); auto. destruct (tf_col l); auto.
+Qed.
+
+Lemma gen_tf_level_weight_zero ls l cvv : tf_w l == 0 -> gen_tf_level ls l cvv = NLit 1.
+Proof.
+  intros H. apply Qeq_bool_iff in H. unfold gen_tf_level. rewrite H.
+  destruct (Z.eqb cvv (-1)); auto. destruct (tf_col l); auto.
+Qed.
+
+(* ------------------------------------------------------------------------------------ *)
+(* products of extended rationals *)
+Lemma xq_eq_refl a : xq_eq a a.
+Proof. destruct a; cbn; auto. reflexivity. Qed.
+Lemma xq_eq_sym a b : xq_eq a b -> xq_eq b a.
+Proof. destruct a, b; cbn; auto. intros H; symmetry; auto. Qed.
+Lemma xq_eq_trans a b c : xq_eq a b -> xq_eq b c -> xq_eq a c.
+Proof. destruct a, b, c; cbn; auto; try tauto. intros H1 H2. rewrite H1; auto. Qed.
+Lemma xmul_compat a a' b b' : xq_eq a a' -> xq_eq b b' -> xq_eq (xmul a b) (xmul a' b').
+Proof. destruct a, a', b, b'; cbn; auto; try tauto. intros H1 H2. rewrite H1, H2. reflexivity. Qed.
+Lemma xmul_assoc a b c : xq_eq (xmul (xmul a b) c) (xmul a (xmul b c)).
+Proof. destruct a, b, c; cbn; auto. ring. Qed.
+Lemma xmul_comm a b : xq_eq (xmul a b) (xmul b a).
+Proof. destruct a, b; cbn; auto. ring. Qed.
+Lemma xmul_1_r a : xq_eq (xmul a (Fin 1)) a.
+Proof. destruct a; cbn; auto. ring. Qed.
+
+Definition xprod (t : list xq) : xq := fold_right xmul (Fin 1) t.
+
+Lemma fold_left_xmul t a : xq_eq (fold_left xmul t a) (xmul a (xprod t)).
+Proof.
+  revert a. induction t as [|x t IH]; intros a; cbn.
+  - apply xq_eq_sym, xmul_1_r.
+  - eapply xq_eq_trans; [apply IH|]. apply xmul_assoc.
+Qed.
+
+Lemma product_is_prior_times_parts p terms :
+  xq_eq (product p terms) (xmul (prior_odds p) (xprod terms)).
+Proof. apply fold_left_xmul. Qed.
+
+Lemma xprod_perm t t' : Permutation t t' -> xq_eq (xprod t) (xprod t').
+Proof.
+  induction 1; cbn.
+  - reflexivity.
+  - apply xmul_compat; auto. apply xq_eq_refl.
+  - eapply xq_eq_trans; [apply xq_eq_sym, xmul_assoc|].
+    eapply xq_eq_trans; [|apply xmul_assoc]. apply xmul_compat; [apply xmul_comm|apply xq_eq_refl].
+  - eapply xq_eq_trans; eauto.
+Qed.
+
+Lemma fold_left_xmul_inf t : fold_left xmul t Inf = Inf.
+Proof. induction t as [|x t IH]; cbn; auto. Qed.
+
+Lemma fold_left_xmul_any_inf t a : existsb x_is_inf t = true -> fold_left xmul t a = Inf.
+Proof.
+  revert a. induction t as [|x t IH]; intros a H; cbn in *; [discriminate|].
+  destruct x as [q|]; cbn in H.
+  - apply IH; auto.
+  - destruct a; cbn; apply fold_left_xmul_inf.
+Qed.
+
+Lemma fold_left_xmul_fin t q : existsb x_is_inf t = false -> exists s, fold_left xmul t (Fin q) = Fin s.
+Proof.
+  revert q. induction t as [|x t IH]; intros q H; cbn in *; [eauto|].
+  destruct x as [y|]; cbn in H; [|discriminate]. cbn. apply IH; auto.
+Qed.
+
+Lemma prior_odds_fin p : Qeq_bool p 1 = false -> prior_odds p = Fin (p / (1 - p)).
+Proof. unfold prior_odds. intros ->. reflexivity. Qed.
+
+(* CASE WHEN any term is infinite THEN 1 ELSE s/(1+s)  is  prob_of_score(score) *)
+Lemma match_probability_closed_form p terms :
+  match_probability_of p terms = prob_of_score (product p terms).
+Proof.
+  unfold match_probability_of, product. destruct (Qeq_bool p 1) eqn:Ep.
+  - unfold prior_odds. rewrite Ep, fold_left_xmul_inf. reflexivity.
+  - destruct (existsb x_is_inf terms) eqn:Ei.
+    + rewrite fold_left_xmul_any_inf; auto.
+    + reflexivity.
+Qed.
+
+Lemma inf_gives_one p terms :
+  existsb x_is_inf terms = true -> product p terms = Inf /\ match_probability_of p terms = 1.
+Proof.
+  intros H. split.
+  - apply fold_left_xmul_any_inf; auto.
+  - unfold match_probability_of. rewrite H. destruct (Qeq_bool p 1); auto.
+Qed.
+
+Lemma no_inf_gives_ratio p terms :
+  Qeq_bool p 1 = false -> existsb x_is_inf terms = false ->
+  exists s, product p terms = Fin s /\ match_probability_of p terms = s / (1 + s).
+Proof.
+  intros Hp Hi. unfold product. rewrite (prior_odds_fin _ Hp).
+  destruct (fold_left_xmul_fin terms (p / (1 - p)) Hi) as (s & Hs). exists s. split; auto.
+  unfold match_probability_of, product. rewrite Hp, Hi, (prior_odds_fin _ Hp), Hs. reflexivity.
+Qed.
+
+(* positivity of the product *)
+Lemma fold_left_xmul_pos t q : 0 < q -> pos_factors t = true ->
+  match fold_left xmul t (Fin q) with Fin s => 0 < s | Inf => True end.
+Proof.
+  revert q. induction t as [|x t IH]; intros q Hq H; cbn in *; auto.
+  apply andb_prop in H. destruct H as [Hx Ht]. destruct x as [y|]; cbn.
+  - apply IH; auto. cbn in Hx. apply negb_true_iff in Hx. apply Qle_bool_false in Hx.
+    apply Qmult_lt_0_compat; auto.
+  - rewrite fold_left_xmul_inf. exact I.
+Qed.
+
+(* ------------------------------------------------------------------------------------ *)
+(* thresholds, over Q *)
+Lemma prob_threshold_Q p s :
+  0 < p -> p < 1 -> 0 <= s -> (p <= s / (1 + s) <-> p / (1 - p) <= s).
+Proof.
+  intros P0 P1 S0. assert (H1s : 0 < 1 + s) by lra. assert (H1p : 0 < 1 - p) by lra.
+  split; intros H.
+  - apply Qle_shift_div_r; auto.
+    assert (E : p * (1 + s) <= s).
+    { apply Qmult_le_compat_r with (z := 1 + s) in H; [|lra].
+      assert (X : s / (1 + s) * (1 + s) == s) by (field; lra). rewrite X in H. exact H. }
+    lra.
+  - apply Qle_shift_div_l; auto.
+    assert (E : p <= s * (1 - p)).
+    { apply Qmult_le_compat_r with (z := 1 - p) in H; [|lra].
+      assert (X : p / (1 - p) * (1 - p) == p) by (field; lra). rewrite X in H. exact H. }
+    lra.
+Qed.
+
+Lemma keep_threshold_exact p x :
+  0 < p -> p < 1 -> xpos x = true -> keep (p / (1 - p)) x = keep_prob p x.
+Proof.
+  intros P0 P1 Hx. destruct x as [s|]; cbn.
+  - cbn in Hx. apply negb_true_iff in Hx. apply Qle_bool_false in Hx.
+    unfold keep_prob. cbn. apply eq_true_iff_eq. rewrite !Qle_bool_iff.
+    symmetry. apply prob_threshold_Q; auto. lra.
+  - unfold keep_prob. cbn. symmetry. apply Qle_bool_iff. lra.
+Qed.
+
+(* ------------------------------------------------------------------------------------ *)
+(* Part 2: evaluating the generated SQL skeletons gives the model functions *)
+Section GenSound.
+  Variable pow : Q -> Q -> Q.
+  Variable env : colref -> option xq.
+  Variable conds : nat -> tv.
+  Notation neval := (neval pow env conds).
+  Notation beval := (beval pow env conds).
+
+  Definition zval (z : Z) : xq := Fin (inject_Z z).
+
+  Lemma ne_col c : neval (NCol c) = env c. Proof. reflexivity. Qed.
+  Lemma ne_lit q : neval (NLit q) = Some (Fin q). Proof. reflexivity. Qed.
+  Lemma ne_inf : neval NInf = Some Inf. Proof. reflexivity. Qed.
+  Lemma ne_null : neval NNull = None. Proof. reflexivity. Qed.
+  Lemma ne_coal a b : neval (NCoalesce a b) = match neval a with Some x => Some x | None => neval b end. Proof. reflexivity. Qed.
+  Lemma ne_mul a b : neval (NMul a b) = lift2 xmul (neval a) (neval b). Proof. reflexivity. Qed.
+  Lemma ne_div a b : neval (NDiv a b) = lift2 xdiv (neval a) (neval b). Proof. reflexivity. Qed.
+  Lemma ne_add a b : neval (NAdd a b) = lift2 xadd (neval a) (neval b). Proof. reflexivity. Qed.
+  Lemma ne_pow a b : neval (NPow a b) = lift2 (xpow pow) (neval a) (neval b). Proof. reflexivity. Qed.
+  Lemma ne_if c t e : neval (NIf c t e) = if isT (beval c) then neval t else neval e. Proof. reflexivity. Qed.
+  Lemma be_cond i : beval (BCond i) = conds i. Proof. reflexivity. Qed.
+  Lemma be_eq a b : beval (BEq a b) = cmp3 xq_eqb (neval a) (neval b). Proof. reflexivity. Qed.
+  Lemma be_ge a b : beval (BGe a b) = cmp3 (fun x y => xq_leb y x) (neval a) (neval b). Proof. reflexivity. Qed.
+  Lemma be_gt a b : beval (BGt a b) = cmp3 (fun x y => xq_ltb y x) (neval a) (neval b). Proof. reflexivity. Qed.
+  Lemma be_and a b : beval (BAnd a b) = and3 (beval a) (beval b). Proof. reflexivity. Qed.
+  Lemma be_or a b : beval (BOr a b) = or3 (beval a) (beval b). Proof. reflexivity. Qed.
+  Lemma be_notnull a : beval (BNotNull a) = match neval a with Some _ => T | None => F end. Proof. reflexivity. Qed.
+  Ltac ev1 := rewrite ?ne_col, ?ne_lit, ?ne_inf, ?ne_null, ?ne_coal, ?ne_mul, ?ne_div, ?ne_add, ?ne_pow, ?ne_if,
+                     ?be_cond, ?be_eq, ?be_ge, ?be_gt, ?be_and, ?be_or, ?be_notnull.
+  Ltac ev := repeat (progress ev1).
+
+  Lemma gen_gamma_case_eval ls cvvs :
+    length cvvs = length ls ->
+    neval (gen_gamma_case ls cvvs) = option_map (fun i => zval (nth i cvvs 0%Z)) (fired conds ls).
+  Proof.
+    revert cvvs. induction ls as [|l t IH]; intros [|v vt] HL; cbn [length] in HL; try discriminate; auto.
+    cbn [gen_gamma_case fired]. unfold fires. destruct (is_else l) eqn:He; cbn [orb].
+    - reflexivity.
+    - ev. destruct (isT (conds (lcond l))) eqn:Hc; [reflexivity|].
+      rewrite IH by lia. destruct (fired conds t); reflexivity.
+  Qed.
+
+  Lemma gen_gamma_sound ls :
+    neval (gen_gamma_case ls (assign_cvv ls)) = option_map zval (gamma ls conds).
+  Proof.
+    rewrite gen_gamma_case_eval by apply assign_cvv_length. unfold gamma, cvv_of.
+    destruct (fired conds ls); reflexivity.
+  Qed.
+
+  Lemma zval_eqb a b : xq_eqb (zval a) (zval b) = Z.eqb a b.
+  Proof.
+    unfold zval, xq_eqb, Qeq_bool, inject_Z. cbn. rewrite !Z.mul_1_r.
+    unfold Zeq_bool. destruct (Z.eqb_spec a b) as [->|H].
+    - rewrite Z.compare_refl. reflexivity.
+    - destruct (Z.compare_spec a b); auto; congruence.
+  Qed.
+
+  Lemma gen_lookup_case_eval gx g cvvs vals :
+    neval gx = Some (zval g) ->
+    neval (gen_lookup_case gx cvvs vals)
+    = match lookup_cvv g cvvs vals with Some x => neval x | None => None end.
+  Proof.
+    intros Hg. revert vals. induction cvvs as [|v vt IH]; intros [|x xt]; cbn [gen_lookup_case lookup_cvv]; auto.
+    ev. rewrite Hg. unfold zlit. ev. fold (zval v). cbn [cmp3]. rewrite zval_eqb.
+    destruct (Z.eqb g v); cbn [of_bool isT]; auto.
+  Qed.
+
+  Lemma lookup_cvv_map {A B} (f : A -> B) g cvvs vals :
+    lookup_cvv g cvvs (map f vals) = option_map f (lookup_cvv g cvvs vals).
+  Proof.
+    revert vals. induction cvvs as [|v vt IH]; intros [|x xt]; cbn; auto.
+    destruct (Z.eqb g v); cbn; auto.
+  Qed.
+
+  Lemma neval_xq_lit x : neval (xq_lit x) = Some x.
+  Proof. destruct x; reflexivity. Qed.
+
+  Lemma gen_bf_sound c ls g :
+    env (CGamma c) = Some (zval g) -> neval (gen_bf_case c ls) = bf_of_gamma ls g.
+  Proof.
+    intros Hg. unfold gen_bf_case, bf_of_gamma.
+    rewrite (gen_lookup_case_eval _ g) by exact Hg.
+    rewrite <- (map_map bf xq_lit), lookup_cvv_map.
+    destruct (lookup_cvv g (assign_cvv ls) (map bf ls)); cbn [option_map]; auto. apply neval_xq_lit.
+  Qed.
+
+  (* TF columns of the environment are the pair's tf values *)
+  Variable tfs : nat -> option Q * option Q.
+  Hypothesis env_tf_l : forall k, env (CTfL k) = option_map Fin (fst (tfs k)).
+  Hypothesis env_tf_r : forall k, env (CTfR k) = option_map Fin (snd (tfs k)).
+
+  Lemma neval_coalesce_lr k :
+    neval (NCoalesce (NCol (CTfL k)) (NCol (CTfR k))) = option_map Fin (coalesce2 (fst (tfs k)) (snd (tfs k))).
+  Proof. ev. rewrite env_tf_l, env_tf_r. destruct (fst (tfs k)), (snd (tfs k)); reflexivity. Qed.
+  Lemma neval_coalesce_rl k :
+    neval (NCoalesce (NCol (CTfR k)) (NCol (CTfL k))) = option_map Fin (coalesce2 (snd (tfs k)) (fst (tfs k))).
+  Proof. ev. rewrite env_tf_l, env_tf_r. destruct (fst (tfs k)), (snd (tfs k)); reflexivity. Qed.
+
+  Lemma gen_divisor_sound k min_u :
+    neval (gen_divisor k min_u) = option_map Fin (tf_divisor min_u (fst (tfs k)) (snd (tfs k))).
+  Proof.
+    unfold gen_divisor, tf_divisor, divisor_A, divisor_B.
+    destruct (Qeq_bool min_u 0).
+    - rewrite ne_if, be_ge, !neval_coalesce_lr, !neval_coalesce_rl.
+      destruct (coalesce2 (fst (tfs k)) (snd (tfs k))) as [a|],
+               (coalesce2 (snd (tfs k)) (fst (tfs k))) as [b|]; cbn; auto;
+      unfold xq_ltb, xq_leb; repeat match goal with |- context [Qle_bool ?x ?y] => destruct (Qle_bool x y) end; reflexivity.
+    - rewrite !ne_if, be_and, be_ge, !be_gt, !ne_lit, !neval_coalesce_lr, !neval_coalesce_rl.
+      destruct (coalesce2 (fst (tfs k)) (snd (tfs k))) as [a|],
+               (coalesce2 (snd (tfs k)) (fst (tfs k))) as [b|]; cbn; auto;
+      unfold xq_ltb, xq_leb; repeat match goal with |- context [Qle_bool ?x ?y] => destruct (Qle_bool x y) end; reflexivity.
+  Qed.
+
+  Lemma gen_tf_level_sound ls l cvv :
+    neval (gen_tf_level ls l cvv) = Some (Fin (tf_adj pow tfs ls l cvv)).
+  Proof.
+    unfold gen_tf_level, tf_adj. destruct (Z.eqb cvv (-1)); auto.
+    destruct (tf_col l) as [k|]; auto. destruct (Qeq_bool (tf_w l) 0); auto.
+    destruct (is_else l); auto.
+    rewrite ne_if, be_notnull, ne_pow, ne_div, !ne_lit, neval_coalesce_lr, gen_divisor_sound.
+    destruct (tfs k) as [tfl tfr] eqn:Et. cbn [fst snd].
+    destruct (coalesce2 tfl tfr) as [x|] eqn:Ec; cbn [option_map isT]; auto.
+    destruct (tf_divisor_some (tf_min_u l) _ _ _ Ec) as (d & Hd). rewrite Hd. reflexivity.
+  Qed.
+
+  Lemma gen_tf_sound c ls g :
+    env (CGamma c) = Some (zval g) ->
+    neval (gen_tf_case c ls) = option_map Fin (tf_of_gamma pow tfs ls g).
+  Proof.
+    intros Hg. unfold gen_tf_case, tf_of_gamma.
+    rewrite (gen_lookup_case_eval _ g) by exact Hg.
+    generalize (combine ls (assign_cvv ls)) as cs. generalize (assign_cvv ls) as cvvs.
+    induction cvvs as [|v vt IH]; intros [|x xt]; cbn [lookup_cvv map option_map]; auto.
+    destruct (Z.eqb g v); cbn [option_map]; auto. apply gen_tf_level_sound.
+  Qed.
+
+  (* the final combination *)
+  Lemma gen_product_eval cols vals acc a :
+    neval acc = Some a -> map env cols = map Some vals ->
+    neval (fold_left (fun e c => NMul e (NCol c)) cols acc) = Some (fold_left xmul vals a).
+  Proof.
+    revert vals acc a. induction cols as [|c t IH]; intros [|v vt] acc a Ha Hm; cbn [map fold_left] in *; try discriminate; auto.
+    injection Hm as Hc Ht. apply IH; auto. ev. rewrite Ha, Hc. reflexivity.
+  Qed.
+
+  Lemma gen_bf_expr_sound p cols vals :
+    map env cols = map Some vals -> neval (gen_bf_expr p cols) = Some (product p vals).
+  Proof.
+    intros Hm. unfold gen_bf_expr, product, prior_odds. destruct (Qeq_bool p 1) eqn:Ep.
+    - rewrite fold_left_xmul_inf. reflexivity.
+    - apply gen_product_eval; auto.
+  Qed.
+
+  Lemma gen_any_inf_eval cols vals acc b :
+    beval acc = of_bool b -> map env cols = map Some vals ->
+    beval (fold_left (fun e c => BOr e (BEq (NCol c) NInf)) cols acc) = of_bool (b || existsb x_is_inf vals).
+  Proof.
+    revert vals acc b. induction cols as [|c t IH]; intros [|v vt] acc b Ha Hm; cbn [map fold_left existsb] in *; try discriminate.
+    - rewrite orb_false_r; auto.
+    - injection Hm as Hc Ht. rewrite orb_assoc. apply IH; auto. ev. rewrite Ha, Hc.
+      destruct b, v; reflexivity.
+  Qed.
+
+  Lemma gen_match_prob_sound p cols vals :
+    cols <> [] -> map env cols = map Some vals ->
+    exists e, gen_match_prob p cols = Some e /\ neval e = Some (Fin (match_probability_of p vals)).
+  Proof.
+    intros Hne Hm. unfold gen_match_prob, match_probability_of. destruct (Qeq_bool p 1) eqn:Ep.
+    - eexists; split; eauto.
+    - destruct cols as [|c t]; [congruence|]. destruct vals as [|v vt]; [discriminate|].
+      assert (Hm' := Hm). cbn [map] in Hm. injection Hm as Hc Ht. cbn [gen_any_inf]. eexists; split; [reflexivity|].
+      rewrite ne_if, (gen_any_inf_eval t vt _ (x_is_inf v)); auto.
+      2:{ ev. rewrite Hc. destruct v; reflexivity. }
+      cbn [existsb]. destruct (x_is_inf v || existsb x_is_inf vt) eqn:Ei; cbn [of_bool isT]; auto.
+      assert (Hp : neval (gen_product p (c :: t)) = Some (product p (v :: vt))).
+      { unfold gen_product, product. rewrite (prior_odds_fin _ Ep). apply gen_product_eval; auto. }
+      rewrite ne_div, ne_add, ne_lit, Hp. destruct (no_inf_gives_ratio p (v :: vt) Ep Ei) as (s & Hs & _).
+      rewrite Hs. reflexivity.
+  Qed.
+End GenSound.
+
+(* ------------------------------------------------------------------------------------ *)
+(* the staged pipeline: an environment whose gamma_/bf_/bf_tf_adj_ columns are the values of
+   the generated CASE expressions yields the model's score and probability *)
+Definition noconds : nat -> tv := fun _ => U.
+
+Section Pipeline.
+  Variable pow : Q -> Q -> Q.
+  Variable tfs : nat -> option Q * option Q.
+  Variable env : colref -> option xq.
+  Hypothesis env_tf_l : forall k, env (CTfL k) = option_map Fin (fst (tfs k)).
+  Hypothesis env_tf_r : forall k, env (CTfR k) = option_map Fin (snd (tfs k)).
+
+  Lemma stage_terms c0 cmps outcs cs :
+    (forall i ls oc, nth_error cmps i = Some ls -> nth_error outcs i = Some oc ->
+        env (CGamma (c0 + i)) = neval pow env oc (gen_gamma_case ls (assign_cvv ls))) ->
+    (forall i ls, nth_error cmps i = Some ls ->
+        env (CBf (c0 + i)) = neval pow env noconds (gen_bf_case (c0 + i) ls)) ->
+    (forall i ls, nth_error cmps i = Some ls -> has_tf ls = true ->
+        env (CTfAdj (c0 + i)) = neval pow env noconds (gen_tf_case (c0 + i) ls)) ->
+    eval_all pow tfs cmps outcs = Some cs ->
+    map env (term_cols_from c0 cmps) = map Some (all_terms cs).
+  Proof.
+    revert c0 outcs cs. induction cmps as [|ls ct IH]; intros c0 outcs cs Hg Hb Ht He.
+    - cbn in He. injection He as <-. reflexivity.
+    - destruct outcs as [|oc ot]; [discriminate|]. cbn [eval_all] in He.
+      destruct (cmp_eval pow tfs ls oc) as [col|] eqn:Ec; [|discriminate].
+      destruct (eval_all pow tfs ct ot) as [r|] eqn:Er; [|discriminate]. injection He as <-.
+      assert (IH' : map env (term_cols_from (S c0) ct) = map Some (all_terms r)).
+      { apply (IH (S c0) ot r); auto.
+        - intros i ls' oc' H1 H2. replace (S c0 + i)%nat with (c0 + S i)%nat by lia. apply (Hg (S i)); auto.
+        - intros i ls' H1. replace (S c0 + i)%nat with (c0 + S i)%nat by lia. apply (Hb (S i)); auto.
+        - intros i ls' H1 H2. replace (S c0 + i)%nat with (c0 + S i)%nat by lia. apply (Ht (S i)); auto. }
+      specialize (Hg 0%nat ls oc eq_refl eq_refl). specialize (Hb 0%nat ls eq_refl).
+      specialize (Ht 0%nat ls eq_refl). rewrite Nat.add_0_r in *.
+      unfold cmp_eval in Ec. destruct (gamma ls oc) as [g|] eqn:Eg; [|discriminate].
+      rewrite gen_gamma_sound, Eg in Hg. cbn [option_map] in Hg.
+      destruct (bf_of_gamma ls g) as [b|] eqn:Eb; [|discriminate].
+      rewrite (gen_bf_sound pow env noconds _ _ g Hg), Eb in Hb.
+      cbn [term_cols_from all_terms flat_map]. change (flat_map (cols_to_multiply) r) with (all_terms r).
+      destruct (has_tf ls) eqn:Htf.
+      + destruct (tf_of_gamma pow tfs ls g) as [t|] eqn:Et; [|discriminate]. injection Ec as <-.
+        rewrite (gen_tf_sound pow env noconds tfs env_tf_l env_tf_r _ _ g Hg), Et in Ht.
+        cbn. rewrite Hb, (Ht eq_refl), IH'. reflexivity.
+      + injection Ec as <-. cbn. rewrite Hb, IH'. reflexivity.
+  Qed.
+
+  Theorem pipeline_sound p cmps outcs cs :
+    (forall i ls oc, nth_error cmps i = Some ls -> nth_error outcs i = Some oc ->
+        env (CGamma i) = neval pow env oc (gen_gamma_case ls (assign_cvv ls))) ->
+    (forall i ls, nth_error cmps i = Some ls ->
+        env (CBf i) = neval pow env noconds (gen_bf_case i ls)) ->
+    (forall i ls, nth_error cmps i = Some ls -> has_tf ls = true ->
+        env (CTfAdj i) = neval pow env noconds (gen_tf_case i ls)) ->
+    eval_all pow tfs cmps outcs = Some cs ->
+    neval pow env noconds (gen_bf_expr p (term_cols cmps)) = Some (score_of_cols p cs) /\
+    (cmps <> [] ->
+     exists e, gen_match_prob p (term_cols cmps) = Some e /\
+               neval pow env noconds e = Some (Fin (match_probability_of p (all_terms cs)))).
+  Proof.
+    intros Hg Hb Ht He.
+    assert (Hm : map env (term_cols cmps) = map Some (all_terms cs)) by (apply (stage_terms 0 cmps outcs cs); auto).
+    split.
+    - apply gen_bf_expr_sound; auto.
+    - intros Hne. apply gen_match_prob_sound; auto.
+      destruct cmps; [congruence|]. unfold term_cols. cbn. discriminate.
+  Qed.
+End Pipeline.
+
+
+(* ------------------------------------------------------------------------------------ *)
+(* statements that need log2 / 2^w: over R (standard real-number axioms) *)
+From Coq Require Import Reals Lra Qreals.
+Local Open Scope R_scope.
+
+Definition log2R (x : R) : R := ln x / ln 2.
+Definition pow2R (w : R) : R := Rpower 2 w.
+
+Lemma ln2_pos : 0 < ln 2.
+Proof. rewrite <- ln_1. apply ln_increasing; lra. Qed.
+
+Lemma pow2_log2 s : 0 < s -> pow2R (log2R s) = s.
+Proof.
+  intros Hs. unfold pow2R, log2R, Rpower. pose proof ln2_pos.
+  replace (ln s / ln 2 * ln 2) with (ln s) by (field; lra). apply exp_ln; auto.
+Qed.
+
+Lemma log2_pow2 w : log2R (pow2R w) = w.
+Proof. unfold pow2R, log2R, Rpower. pose proof ln2_pos. rewrite ln_exp. field. lra. Qed.
+
+Lemma pow2_pos w : 0 < pow2R w.
+Proof. unfold pow2R, Rpower. apply exp_pos. Qed.
+
+Lemma log2_le s t : 0 < s -> 0 < t -> (log2R s <= log2R t <-> s <= t).
+Proof.
+  intros Hs Ht. unfold log2R. pose proof ln2_pos as L. split; intros H.
+  - assert (ln s <= ln t).
+    { apply Rmult_le_reg_r with (r := / ln 2); [apply Rinv_0_lt_compat; auto|exact H]. }
+    destruct H0 as [H0|H0]; [left; apply ln_lt_inv; auto|right; apply ln_inv; auto].
+  - apply Rmult_le_compat_r; [left; apply Rinv_0_lt_compat; auto|].
+    destruct H as [H|H]; [left; apply ln_increasing; auto|right; subst; auto].
+Qed.
+
+(* match_probability = 2^w / (1 + 2^w) for w = log2 s *)
+Lemma prob_from_weight_R s : 0 < s -> s / (1 + s) = pow2R (log2R s) / (1 + pow2R (log2R s)).
+Proof. intros Hs. rewrite pow2_log2; auto. Qed.
+
+(* weight threshold: log2 s >= w  <->  s >= 2^w *)
+Lemma weight_threshold_R s w : 0 < s -> (w <= log2R s <-> pow2R w <= s).
+Proof.
+  intros Hs. rewrite <- (log2_pow2 w) at 1. apply log2_le; auto. apply pow2_pos.
+Qed.
+
+Lemma ratio_threshold_R p s : 0 < p -> p < 1 -> 0 < s -> (p <= s / (1 + s) <-> p / (1 - p) <= s).
+Proof.
+  intros P0 P1 S0. split; intros H.
+  - apply Rmult_le_reg_r with (r := 1 - p); [lra|]. unfold Rdiv. rewrite Rmult_assoc, Rinv_l by lra.
+    apply Rmult_le_compat_r with (r := 1 + s) in H; [|lra].
+    unfold Rdiv in H. rewrite Rmult_assoc, Rinv_l in H by lra. lra.
+  - apply Rmult_le_reg_r with (r := 1 + s); [lra|]. unfold Rdiv at 1. rewrite Rmult_assoc, Rinv_l by lra.
+    apply Rmult_le_compat_r with (r := 1 - p) in H; [|lra].
+    unfold Rdiv in H. rewrite Rmult_assoc, Rinv_l in H by lra. lra.
+Qed.
+
+(* probability threshold p is applied as the weight threshold log2(p/(1-p)) *)
+Lemma prob_threshold_R p s :
+  0 < p -> p < 1 -> 0 < s -> (log2R (p / (1 - p)) <= log2R s <-> p <= s / (1 + s)).
+Proof.
+  intros P0 P1 S0. rewrite log2_le; auto.
+  - symmetry. apply ratio_threshold_R; auto.
+  - apply Rdiv_lt_0_compat; lra.
+Qed.
+
+(* the Q-level `keep` is the real-number test  w <= log2 s  when T = 2^w *)
+Lemma keep_is_weight_test (T s : Q) (w : R) :
+  (0 < s)%Q -> Q2R T = pow2R w -> (keep T (Fin s) = true <-> w <= log2R (Q2R s)).
+Proof.
+  intros Hs HT. unfold keep, xq_leb. rewrite Qle_bool_iff.
+  assert (0 < Q2R s) by (replace 0 with (Q2R 0) by (unfold Q2R; cbn; lra); apply Qlt_Rlt; auto).
+  rewrite weight_threshold_R; auto. rewrite <- HT. split; [apply Qle_Rle|apply Rle_Qle].
+Qed.
+
+(* waterfall: the log2 of the records add up to the match weight *)
+Fixpoint sum_log2 (l : list R) : R := match l with [] => 0 | x :: t => log2R x + sum_log2 t end.
+Fixpoint prodR (l : list R) : R := match l with [] => 1 | x :: t => x * prodR t end.
+
+Lemma log2_mult a b : 0 < a -> 0 < b -> log2R (a * b) = log2R a + log2R b.
+Proof. intros. unfold log2R. rewrite ln_mult; auto. pose proof ln2_pos. field. lra. Qed.
+
+Lemma prodR_pos l : Forall (fun x => 0 < x) l -> 0 < prodR l.
+Proof. induction 1; cbn; [lra|]. apply Rmult_lt_0_compat; auto. Qed.
+
+Lemma waterfall_adds_up l : Forall (fun x => 0 < x) l -> sum_log2 l = log2R (prodR l).
+Proof.
+  induction 1 as [|x t Hx Ht IH]; cbn.
+  - unfold log2R. rewrite ln_1. lra.
+  - rewrite log2_mult; auto. + rewrite IH; auto. + apply prodR_pos; auto.
 Qed.
